@@ -105,7 +105,19 @@ def run(ctx):
         else:
             alpha = draw(st.lists(st.floats(-1e6, 1e6, allow_nan=False, width=64), min_size=k, max_size=k, unique=True))
         n = draw(st.sampled_from([1, 2, 3, 10, 100, 1000, ctx.n(3000, 100000)]))
-        idx = draw(st.lists(st.integers(0, k - 1), min_size=n, max_size=n))
+        if n <= 1000:
+            idx = draw(st.lists(st.integers(0, k - 1), min_size=n, max_size=n))
+        else:
+            # large samples: draw the multiplicities, lay the values out in a fixed interleaved order
+            w = draw(st.lists(st.integers(0, 1000), min_size=k, max_size=k))
+            if not any(w):
+                w[0] = 1
+            tot = sum(w)
+            cnt = [n * x // tot for x in w]
+            cnt[max(range(k), key=lambda i: w[i])] += n - sum(cnt)
+            idx = [i for i in range(k) for _ in range(cnt[i])]
+            stride = 7919
+            idx = [idx[(j * stride) % n] for j in range(n)] if n % stride else idx
         xs = [alpha[i] for i in idx]
         s = sorted(set(xs))
         qs = [s[0] - 1] + s + [s[-1] + 1] + [(a + b) / 2 for a, b in zip(s, s[1:])]
